@@ -22,6 +22,9 @@ OMEN_B = {'ngram': 2, 'alphabet': ['a', 'b', 'c'], 'ip': {'a': 0, 'b': 1, 'c': 2
           'cp': {'aa': 1, 'ab': 0, 'ac': 2, 'ba': 0, 'bc': 1, 'ca': 0, 'cc': 3}, 'ln': [5, 1, 0, 2],
           'keyspace': {1: 3, 2: 8, 3: 13}, 'omen_prob': [(1, .125), (2, .0625), (3, .03125)]}
 OMEN_A = dict(R.DEFAULT_OMEN, keyspace={1: 3, 2: 3, 3: 2}, omen_prob=[(1, .125), (2, .0625), (3, .03125)])
+# levels of equal probability form ONE Markov pre-terminal: the limit has to be carried from level to level inside it
+OMEN_T = dict(R.DEFAULT_OMEN, keyspace={1: 3, 2: 3, 3: 2}, omen_prob=[(1, .125), (2, .125), (3, .03125)])
+OMEN_0 = dict(OMEN_B, omen_prob=[(1, .125), (2, 0.0), (3, 0.0)])
 
 
 def specs(tier):
@@ -38,6 +41,8 @@ def specs(tier):
         (t0, [('D1', 1.0)], OMEN_A),
         (t0, [('A2A1', .6), ('A2D1', .4)], OMEN_A),   # multi-mask C2 group followed by more variables
         (tie, [('A2D1', .6), ('A1A2', .4)], OMEN_A),  # mask groups of 4 and 2 equally probable masks, not in last position
+        (t0, [('M', .5), ('A1D1', .5)], OMEN_T),
+        (t0, [('D2', .5), ('M', .5)], OMEN_0),
     ]
     if tier == 'thorough':
         cands += [
